@@ -504,8 +504,11 @@ pub fn rules(d: &Decl) -> Vec<Violation> {
                     }
                 }
                 let clean = own_clean && fields_clean;
+                // a skipped variant can never be produced, so it is not the word variant either (C09);
+                // `word` written on it declares nothing
+                let variant_skipped = effective(&vo, "skip").map(|s| s.on).unwrap_or(false);
                 if let Some(w) = effective(&vo, "word") {
-                    if w.on && unit {
+                    if w.on && unit && !variant_skipped {
                         all_words.push(w.range);
                         if clean {
                             clean_words.push(w.range);
